@@ -394,6 +394,14 @@ func runC11(c *Ctx) {
 				ac.Limits.JetStreamTieredLimits = jwt.JetStreamTieredLimits{"R1": jwt.JetStreamLimits{DiskStorage: 5}}
 				ac.Imports.Add(&jwt.Import{Subject: "i1", Account: "A", Type: jwt.Stream}, &jwt.Import{Subject: "i2", Account: "A", Type: jwt.Service})
 				ac.Limits.Exports, ac.Limits.WildcardExports = 10, false
+				// (limits at, below and above the number of entries: code that reports WHICH entry is over a limit looks
+				// at the entry whose index is the limit)
+				switch b % 3 {
+				case 0:
+					ac.Limits.Imports, ac.Limits.Exports = 1, 1
+				case 2:
+					ac.Limits.Imports, ac.Limits.Exports = 0, 0
+				}
 			}
 			tok, err := cl.Encode(s.kp)
 			if err != nil {
